@@ -4,6 +4,7 @@
  * The object is pre-built without faults where the instance says so, the
  * operation runs with the faults armed, then the matching destroy runs.
  * Output (compared with the model, judged by the monitor):
+ *     pre live=<blocks+fds held by the pre-built object>
  *     op rc=<ok|fail> att=<calls attempted> live=<blocks+fds still held>
  *     destroy live=<..>     |  destroy skipped live=<..>
  * Caller-provided object storage is zero-filled before the constructor runs.
@@ -342,6 +343,7 @@ static void case_end(void)
 	fi_begin();
 	if (cur->pre && !cur->pre()) { printf("pre FAILED\n"); fi_end(); alarm(0); return; }
 	if (cur->settle) fi_settle();
+	printf("pre live=%d\n", fi_live_blocks() + fi_live_fds());
 	fi_arm(ks, nks);
 	int ok = cur->op();
 	int att = fi_calls();
